@@ -195,7 +195,7 @@ def gen_dtd(rng, flavour=None):
                 el["cm"] = rng.choice(SHAPES)(sh)
             else:
                 el["cm"] = gen_cm(rng, cand, rng.choice([1, 2, 2, 3]))
-            el["cm"] = guard_recursion(el["cm"], set(names[:i + 1]))
+            el["cm"] = libxml2_normalise(guard_recursion(el["cm"], set(names[:i + 1])))
         elements.append(el)
     # attributes
     for i, el in enumerate(elements):
@@ -239,6 +239,27 @@ def guard_recursion(t, back):
             return ["el", t[1], "*" if t[2] == "+" else "?"]
         return t
     return [t[0], [guard_recursion(k, back) for k in t[1]], t[2]]
+
+
+def libxml2_normalise(t):
+    """libxml2 rewrites (a | b* | c?)* to (a | b | c)* and (a | b?)+ to (a | b)* while parsing a group's
+    occurrence suffix (same language).  Mirror it so that the description equals what lxml holds."""
+    if t[0] == "el":
+        return t
+    kids = [libxml2_normalise(k) for k in t[1]]
+    t = [t[0], kids, t[2]]
+    if t[0] == "or" and t[2] in ("*", "+"):
+        found = False
+        cur = t
+        while cur is not None and cur[0] == "or":
+            for k in cur[1]:
+                if k[2] in ("?", "*"):
+                    k[2] = ""
+                    found = True
+            cur = cur[1][-1]
+        if t[2] == "+" and found:
+            t[2] = "*"
+    return t
 
 
 def dtd_text(d):
@@ -329,7 +350,7 @@ class DocGen:
                 out += self.word(self.rng.choice(ks), small, style)
         return out
 
-    def element(self, name, depth, style, ids, idrefs, ws):
+    def element(self, name, depth, style, ids, idrefs, ws, force=None):
         r = self.rng
         e = self.decl[name]
         node = etree.Element(self.clark(name), nsmap=self.nsmap() if depth == 0 else None)
@@ -337,7 +358,16 @@ class DocGen:
             self.put_attr(node, a, ids, idrefs, style)
         k = e["kind"]
         budget = 4 - depth
-        if k == "PCDATA":
+        if force is not None:
+            word, text = force
+            if text:
+                node.text = "t"
+            for n in word:
+                c = self.element(n, 3, "min", ids, idrefs, False)
+                node.append(c)
+                if text:
+                    c.tail = "t"
+        elif k == "PCDATA":
             if r.random() < 0.85:
                 node.text = r.choice(TEXTS)
         elif k == "CM":
@@ -420,9 +450,9 @@ class DocGen:
             v = attr_value(r, a, None)
         node.set(self.clark(name), v)
 
-    def document(self, style="rand", ws=False):
+    def document(self, style="rand", ws=False, root_name=None, force=None):
         ids, idrefs = [], []
-        root = self.element(self.d["root"], 0, style, ids, idrefs, ws)
+        root = self.element(root_name or self.d["root"], 0, style, ids, idrefs, ws, force)
         for node, cname, ty in idrefs:
             if ids:
                 n = 1 if ty == "IDREF" else self.rng.choice([1, 2, 3])
